@@ -1,6 +1,6 @@
 """C18 - response codes are classified and named by the TPM 2.0 format rules (exhaustive, independent re-implementation)."""
 from .. import observe as O
-from ..pretty import parse_row
+from ..pretty import parse_row, strip_ansi
 from .common import layout
 
 ID = "C18"
@@ -124,8 +124,23 @@ def check_code(ctx, v):
                 return
     # bit rows
     path = Path(PathNode("")) / PathNode("responseCode")
+    if v % 2:
+        # an attribute word of another type with the very same integer was printed just before (TPMA_ALGORITHM 0x101 ...)
+        for other in ("TPMA_ALGORITHM", "TPMA_OBJECT"):
+            A = O.lib_type(other)
+            ctx.guard(lambda: list(Pretty.unmarshal([MarshalEvent(path, A, A(v))])), "C18:pretty-other-type", payload)
+        ctx.count("printed-after-same-integer-of-another-type")
     rows = ctx.guard(lambda: list(Pretty.unmarshal([MarshalEvent(path, T, x)])), "C18:pretty", payload)
     if rows is None:
+        return
+    # the same event shown again (a list of events printed twice, Canonical.debug() and then the printer): same rows
+    again = ctx.guard(lambda: list(Pretty.unmarshal([MarshalEvent(path, T, x)])), "C18:pretty", payload)
+    if again is not None and again != rows:
+        ctx.problem("C18:second-print-differs", f"TPM_RC({v:#x}): printing the same value a second time gives {len(again)} rows {[strip_ansi(r)[-50:] for r in again[:3]]}, the first time {len(rows)} rows", payload)
+        return
+    at = ctx.guard(lambda: (len(list(x.attributes())), len(list(x.attributes()))), "C18:attributes", payload)
+    if at is not None and at[0] != at[1]:
+        ctx.problem("C18:second-print-differs", f"TPM_RC({v:#x}).attributes() yields {at[0]} rows when first asked and {at[1]} when asked again", payload)
         return
     parsed = [parse_row(r) for r in rows]
     if not parsed or any(p is None for p in parsed):
